@@ -442,3 +442,13 @@ Proof.
       * inversion H; subst; lra.
       * inversion H; subst; lra.
 Qed.
+
+Lemma newton_residual_monotone : forall max_iter depth atol mo g d th,
+  norm4 (constraints (newton_iterate (newton max_iter depth atol mo g d th)) mo d th)
+  <= norm4 (constraints g mo d th).
+Proof.
+  intros. unfold newton.
+  destruct (newton_loop max_iter depth atol g (constraints g mo d th) mo d th [] 0) as [[[st l] lg'] it'] eqn:E.
+  unfold newton_iterate. simpl.
+  eapply newton_loop_monotone; eauto.
+Qed.
